@@ -267,13 +267,18 @@ func statefulInput(c *RNG, code, budget int) []byte {
 func init() {
 	register(&Prop{
 		ID:       "C06",
-		Rule:     "sequences of 1-8 Packetize / SkipSamples / GeneratePadding / EnableAbsSendTime calls on one packetizer: MTU 64-1500 (mass on 64-120), payloaders G711, G722, Opus (inputs below the budget), VP8 and a caller-defined payloader that returns no fragment for half of its inputs; payload sizes 1 B to 4 budgets incl. exact multiples of the budget; abs-send-time ids 1-14 and, one time in eight, 15 / 16 / 100 / 255 (two-byte form); sequence starts near 65535; timestamps near 2^32; clock instants over the NTP era; non-trivial = a call that produced >= 2 packets or padding",
+		Rule:     "sequences of 1-8 Packetize / SkipSamples / GeneratePadding / EnableAbsSendTime calls on one packetizer: MTU 64-1500 (mass on 64-120) and, one case in eight, 0-30 (no or hardly any room behind the header), payloaders G711, G722, Opus (inputs below the budget), VP8 and a caller-defined payloader that returns no fragment for half of its inputs; payload sizes 1 B to 4 budgets incl. exact multiples of the budget; abs-send-time ids 1-14 and, one time in eight, 15 / 16 / 100 / 255 (two-byte form); sequence starts near 65535; timestamps near 2^32; clock instants over the NTP era; non-trivial = a call that produced >= 2 packets or padding",
 		Quick:    4000,
 		Thorough: 200000,
 		Gen: func(r *RNG, tier string, n int, emit func(op int, toks ...Tok)) {
 			for i := 0; i < n; i++ {
 				c := r.Fork(uint64(i))
 				mtu := c.Pick(64, 65, 72, 100, 120, 1200, 1500, 64+c.Intn(200))
+				if i%8 == 3 {
+					// "every MTU": also those that leave no room, or hardly any, behind the RTP header (12 bytes, 20 or 24
+					// with abs-send-time) - nothing can be sent then, and nothing larger than the MTU may be
+					mtu = c.Pick(0, 1, 11, 12, 13, 14, 19, 20, 21, 23, 24, 25, 26, 30)
+				}
 				code := c.Pick(0, 1, 2, 3, 4)
 				ops := TList{}
 				abs := 0
@@ -288,6 +293,9 @@ func init() {
 							budget -= 4 // two-byte form of the extension block
 						}
 						var l int
+						if budget < 1 {
+							budget = 1 + c.Intn(40) // no room at this MTU: any payload will do
+						}
 						switch c.Intn(4) {
 						case 0:
 							l = budget * (1 + c.Intn(3))
